@@ -29,6 +29,7 @@ import JubakoModel.Generated.FuncsCheck
 import JubakoModel.Generated.FuncsLookup
 import JubakoModel.Generated.FuncsStats
 import JubakoModel.Generated.FuncsEntry
+import JubakoModel.Generated.FuncsParse
 
 open Jubako
 
@@ -62,6 +63,28 @@ def entryValueOfD (stores : List VStore) (p : RawProp) (v : Val) : Generated.Src
     | none => .indirectArray (vs.idOf a)
     | some _ => .array (a.length, a.take fixed, vs.idOf (a.drop fixed))
   | _ => .unsigned 0
+
+/-- copy of `RawProp.toSrcRaw` of Lemmas/FuncsParse.lean, and outcomes as text (panic texts dropped) -/
+def toSrcRawD (p : RawProp) : Nat × Generated.SrcPropertyKind × Bytes :=
+  (p.size,
+   (match p.kind with
+    | .padding => .padding
+    | .content ps cs d => .contentAddress ps cs d
+    | .uint sz d => .unsignedInt sz d
+    | .sint sz d => .signedInt sz d
+    | .array l f dep dflt => .array l f dep dflt
+    | .variantId => .variantId
+    | .deportedInt signed sz store id =>
+      let i : Generated.SrcDeportedDefault := match id with | .inl v => .value v | .inr k => .keySize k
+      if signed then .deportedSignedInt sz store i else .deportedUnsignedInt sz store i),
+   p.name)
+
+def outcomeText {α} [Repr α] : Outcome α → String
+  | .ok a => "ok " ++ reprStr a
+  | .err k => "err " ++ reprStr k
+  | .panic _ => "panic"
+  | .hang => "hang"
+  | .fault => "fault"
 
 def grid : List Nat :=
   [0, 1, 2, 3, 4, 37, 38, 39, 127, 128, 255, 256, 257, 4094, 4095, 4096, 65535, 65536, 65537, 16777215, 16777216,
@@ -228,3 +251,11 @@ def main : IO Unit := do
       | some k => (Generated.entryPropertyWrites k (entryValueOfD est x.1 x.2) (some 2)).map (fun ws => (ws.map (fun p => leBytes p.1 p.2)).flatten)
       | none => none)
     (fun (x : RawProp × Val) => some (serializeProp est x.1 x.2 (some 2)))
+  -- the reader's property-header parser: every type nibble x every data nibble, over a tail long enough for
+  -- every branch, and over truncated tails
+  let tails : List Bytes := [[0x85, 0x0F, 0x04, 0x00, 0x00, 97, 98, 99, 100, 0, 0xfc, 0xfd, 0xfe, 0xff, 1, 97, 9, 9],
+    [0x21, 0x02, 0x01, 2, 97, 98], [0xff, 0x03, 0x02], [1], []]
+  let heads : List Bytes := ((List.range 256).map (fun i => UInt8.ofNat i)).flatMap fun b => tails.map fun t => b :: t
+  cmp1 "rawPropertyParse" ([] :: heads)
+    (fun bs => outcomeText (Generated.rawPropertyParse bs))
+    (fun bs => outcomeText ((RawProp.decode bs).map' (fun x => (toSrcRawD x.1, x.2))))
